@@ -31,11 +31,11 @@ structure SHandle where
 
 /-- (a) the live POSIX tree -/
 structure Live where
-  ents : List (Path × Ent) := []            -- namespace (root implicit)
-  live : List (Nat × Bytes) := []           -- content per file id
+  ents : List (Path × Ent) := []                   -- namespace (root implicit)
+  live : Nat → Bytes := fun _ => []                -- content per file id
   next : Nat := 1
-  handles : List (Nat × SHandle) := []
-  deriving DecidableEq, Repr, Inhabited
+  handles : Nat → Option SHandle := fun _ => none  -- the harness' handle slots
+  deriving Inhabited
 
 /-- (a) + (b): the live tree and the inode-level durable image -/
 structure Spec where
@@ -43,7 +43,7 @@ structure Spec where
   dur : List (Nat × Bytes) := []            -- content at the last data sync per file id
   dents : List ((Nat × Nat) × Ent) := []    -- durable children: (dir id, name) ↦ entry
   wlog : List (Nat × Nat × Bytes) := []     -- unsynced writes (file id, offset, data), in order
-  deriving DecidableEq, Repr, Inhabited
+  deriving Inhabited
 
 def Live.init : Live := {}
 def Spec.init : Spec := {}
@@ -71,7 +71,10 @@ def sParentIsDir (sp : Live) (p : Path) : Bool :=
   | none => true
   | some d => isDirAt sp d
 
-def liveContent (sp : Live) (id : Nat) : Bytes := (nlookup id sp.live).getD []
+def liveContent (sp : Live) (id : Nat) : Bytes := sp.live id
+
+def setLive (sp : Live) (id : Nat) (c : Bytes) : Live :=
+  { sp with live := fun j => if j = id then c else sp.live j }
 
 def sChildren (sp : Live) (p : Path) : List (Path × Ent) := sp.ents.filter fun kv => isChildOf kv.1 p
 
@@ -91,22 +94,24 @@ def sView (sp : Live) (p : Path) : View :=
   | some (.dir _) => .dir (sChildNames sp p)
   | none => .none
 
-def sGetSlot (sp : Live) (i : Nat) : Option SHandle := nlookup i sp.handles
-def sDropSlot (sp : Live) (i : Nat) : Live := { sp with handles := sp.handles.filter fun kv => kv.1 != i }
-def sSetSlot (sp : Live) (i : Nat) (h : SHandle) : Live := { sp with handles := ninsert i h sp.handles }
+def sGetSlot (sp : Live) (i : Nat) : Option SHandle := sp.handles i
+def sDropSlot (sp : Live) (i : Nat) : Live :=
+  { sp with handles := fun j => if j = i then none else sp.handles j }
+def sSetSlot (sp : Live) (i : Nat) (h : SHandle) : Live :=
+  { sp with handles := fun j => if j = i then some h else sp.handles j }
 
 def sWrite (sp : Live) (id off : Nat) (d : Bytes) : Live :=
-  if d.isEmpty then sp else { sp with live := ninsert id (writeAt (liveContent sp id) off d) sp.live }
+  if d.isEmpty then sp else setLive sp id (writeAt (liveContent sp id) off d)
 
 def sSetLen (sp : Live) (id n : Nat) : Live :=
-  { sp with live := ninsert id (resize (liveContent sp id) n) sp.live }
+  setLive sp id (resize (liveContent sp id) n)
 
 /-- open(2) on the namespace; returns the file id -/
 def sOpen (sp : Live) (p : Path) (fl : Flags) : Except Err (Live × Nat) :=
   match entAt sp p with
   | some (.file id) =>
     if fl.n then .error .alreadyexists
-    else if fl.t && fl.w then .ok ({ sp with live := ninsert id [] sp.live }, id)
+    else if fl.t && fl.w then .ok (setLive sp id [], id)
     else .ok (sp, id)
   | some (.dir _) =>
     if fl.n then .error .alreadyexists
@@ -117,7 +122,7 @@ def sOpen (sp : Live) (p : Path) (fl : Flags) : Except Err (Live × Nat) :=
       if !(sParentIsDir sp p) then .error .notfound
       else
         let id := sp.next
-        .ok ({ (setEnt sp p (.file id)) with live := ninsert id [] sp.live, next := id + 1 }, id)
+        .ok ({ (setLive (setEnt sp p (.file id)) id []) with next := id + 1 }, id)
     else .error .notfound
 
 def sMkdir (sp : Live) (p : Path) : Except Err Live :=
@@ -372,7 +377,7 @@ def sCrash (sp : Spec) (block : Option Nat) (torn : List Nat) : Spec :=
   let dur1 := match block with
     | some b => sTorn reach b sp.wlog torn sp.dur
     | none => sp.dur
-  { l := { ents := ents, live := dur1, next := sp.l.next, handles := [] },
+  { l := { ents := ents, live := fun id => (nlookup id dur1).getD [], next := sp.l.next, handles := fun _ => none },
     dur := dur1, dents := sp.dents, wlog := [] }
 
 /-- one call on the specification: the live tree steps by `lStep`, the durable image by `dStep` -/
